@@ -1046,7 +1046,7 @@ func canonKey(v value) (string, bool) {
 			return "t0", true
 		}
 		if n, ok := v.ns.(int64); ok {
-			return fmt.Sprintf("t%d", n), true
+			return fmt.Sprintf("t%d%s", n, v.zone), true
 		}
 	}
 	return "", false
